@@ -169,6 +169,10 @@ func (t *transport) Shutdown(ctx context.Context) error {
 		return nil
 	}
 
+	// shutdownTimeout is the limit for callers that bring no deadline of their own; a caller's deadline
+	// (Engine.Shutdown: the configured ExitWaitTimeout) is honoured also when it is longer than that.
+	_, hasDeadline := ctx.Deadline()
+
 	// check periodically to see if all connections closed
 	t0 := time.Now()
 	for {
@@ -177,7 +181,7 @@ func (t *transport) Shutdown(ctx context.Context) error {
 			if t.updateActive(0) <= 0 {
 				return nil
 			}
-			if now.Sub(t0) > shutdownTimeout {
+			if !hasDeadline && now.Sub(t0) > shutdownTimeout {
 				return errShutdownTimeout
 			}
 		case <-ctx.Done():
